@@ -281,10 +281,16 @@ def strict_comment_check(before_src, after_src, op, put_code_src):
         while is_comm(i) or (trail == 'all' and is_blank(i)):
             allowed.add(i)
             i += 1
+    own_last_line_comment = True
     if trail == 'none':
-        # the comment on the element's own last line is not selected: keep only comments strictly inside the element lines
-        pass
-    required = [t[1] for t in B if t[0] == tokenize.COMMENT and not (t[2][0] in allowed and (trail != 'none' or t[2][0] != l1 or t[2] < (l1, c1)))]
+        # the comment on the element's own last line is not selected: keep only comments strictly inside the element lines. For a BLOCK statement that comment is the line
+        # comment of its last inner statement, which goes with the element
+        try:
+            own_last_line_comment = not any(isinstance(n_, (ast.stmt, ast.ExceptHandler, ast.match_case)) and getattr(n_, 'body', None) and isinstance(n_.body, list)
+                                            and getattr(n_, 'lineno', None) == l0 and getattr(n_, 'end_lineno', None) == l1 and l1 > l0 for n_ in ast.walk(ast.parse(before_src)))
+        except SyntaxError:
+            pass
+    required = [t[1] for t in B if t[0] == tokenize.COMMENT and not (t[2][0] in allowed and (trail != 'none' or not own_last_line_comment or t[2][0] != l1 or t[2] < (l1, c1)))]
     have = [t[1] for t in A if t[0] == tokenize.COMMENT]
     j = 0
     for c in required:
